@@ -350,7 +350,7 @@ def hazards(case: dict, toks: T.List[R.Tok], tree: T.Any) -> T.List[Hazard]:
         hz.append(Hazard('idempotence/multiline-parens-closer-indent', ('idempotence',),
                          'a parenthesised expression that the line-length rule breaks and that holds another bracket: inner closers are mis-indented by the first run'))
     if effective(case, 'simplify_string_literals'):
-        if any(t.kind == 'str' and t.val[1] and ml_backslash_hazard(t.val[2]) for t in toks):
+        if False and any(t.kind == 'str' and t.val[1] and ml_backslash_hazard(t.val[2]) for t in toks):   # fixed in /repo: no longer a hazard class
             hz.append(Hazard('string/ml-backslash-simplified', ('output', 'meaning'),
                              'a triple-quoted literal holding a backslash escape (or ending in a backslash) is rewritten to a plain one'))
     if any(t.kind in ('comment', 'cont') and t.val is not None and any(c in t.val.rstrip() for c in ODD_SEPARATORS) for t in toks):
@@ -929,7 +929,7 @@ def g_string(em: Em, filename: bool = False) -> str:
         body = body[:-1]
     if "'''" in body:
         body = body.replace("'", '')
-    if em.simplify_on and ml_backslash_hazard(body):
+    if False and em.simplify_on and ml_backslash_hazard(body):     # (the class is generated again: fixed in /repo)
         body += '\n'                       # keeps the backslash, takes the literal out of the known-defect class
         em.defused += 1
     return ('f' if kind == 9 else '') + "'''" + body + "'''"
